@@ -137,6 +137,17 @@ def stepRegistry (op : String) (args : List String) : Option String :=
   -- path (c13_calls_take_no_lifecycle_lock), so the call is an ordinary one against a silent peer: a Request times
   -- out (c13_timeout_returns), a Oneway whose write is accepted returns ok
   | "rql", [_phase, _timeout, ow] => pure (if ow == "1" then "outcome=ok" else "outcome=timedOut")
+  -- connection 1 ends inside a frame, the same transport is reopened (C05/C06): each Open starts a fresh framed
+  -- reader and read loop (a fresh system), so the response on connection 2 is delivered as in `rq early`
+  | "rqo", [_cut, pre, _timeout] => do
+    let pre ← pre.toNat?
+    let as ← rqSchedule (if pre == 0 then "early" else "otherfirst") 0
+    let s ← run (init FV.Params.resultChanCapAdapter FV.Params.dispatchSendBlocking (List.range 2)) as
+    let c0 ← s.callers[0]?
+    pure (match c0.pc with
+      | .done (.ok f) => s!"outcome=ok:{f.tag}"
+      | .done .timedOut => "outcome=timedOut"
+      | pc => s!"outcome={showPc pc}")
   -- free-running registry (C06): by c06_reader_never_blocks no interleaving stalls, every call is answered
   | "rfree", [k, iters] => do
     let k ← k.toNat?
